@@ -90,7 +90,7 @@ class Scope:
 
 
 class XGen:
-    def __init__(self, rng, depth=3, dyn=False, ext=True):
+    def __init__(self, rng, depth=3, dyn=False, ext=False):
         self.rng = rng
         self.depth = depth
         self.dyn = dyn
@@ -867,7 +867,9 @@ def gen_inputs(rng, n, k):
     return [[rng.range(-4, 5) for _ in range(k)] for _ in range(n)]
 
 
-def gen_cases(rng, n_cases, n_samples, tag="lmmx", dyn_share=8, ext=True):
+def gen_cases(rng, n_cases, n_samples, tag="lmmx", dyn_share=8, ext=False):
+    """ext=False (default; other checks use this stream): the language of the first version of the generator (closures, HOF, pipes,
+    defaults, tuples, records);  ext=True: plus sum types, match and wide self (checks/lmmx_part.py)"""
     cases = []
     for i in range(n_cases):
         r = rng.fork((tag, i))
